@@ -295,7 +295,7 @@ def step_x86(m, variant, mn, ops):
     elif mn in X86_CC:
         m.events.append(("jcc", X86_CC[mn], m.flags, ops[0][1]))
     elif mn in ("jmp", "jmp near"):
-        m.events.append(("jmp", ops[0]))
+        m.events.append(("jmp", ops[0], _val(m, ops[0]) if ops[0][0] in ("reg", "mem") else None))
     elif mn == "ret":
         m.events.append(("ret", m.r("rsp")))
     else:
@@ -360,9 +360,9 @@ def step_a64(m, variant, mn, ops):
     elif mn in A64_CC:
         m.events.append(("jcc", A64_CC[mn], m.flags, ops[0][1]))
     elif mn in ("B",):
-        m.events.append(("jmp", ops[0]))
+        m.events.append(("jmp", ops[0], None))
     elif mn == "BR":
-        m.events.append(("jmp", ops[0]))
+        m.events.append(("jmp", ops[0], _val(m, ops[0])))
     elif mn == "BL":
         m.events.append(("call", ops[0][1], m.r("SP"), {"X0": m.r("X0")}))
         for r in CALLER_SAVED["aarch64"]:
@@ -425,9 +425,11 @@ def step_rv(m, variant, ops):
     elif variant in RV_CC:
         m.events.append(("jcc", RV_CC[variant], norm(("cmp", _val(m, ops[0]), _val(m, ops[1]))), ops[2][1]))
     elif variant == "JAL":
-        m.events.append(("jmp", ops[1]))
+        m.events.append(("jmp", ops[1], None))
     elif variant == "JALR":
-        m.events.append(("jmp", ops[1]))
+        if isinstance(ops[2][1], int) and not (-2048 <= ops[2][1] < 2048):
+            m.errors.append("JALR offset %d does not fit 12 bits" % ops[2][1])
+        m.events.append(("jmp", ops[1], norm(("add", _val(m, ops[1]), _val(m, ops[2])))))
     else:
         m.errors.append("unknown RISC-V instruction %s" % variant)
 
